@@ -164,14 +164,14 @@ PROPS = {
         not_decided=['encoder side create_symbols (sub-block interleaving): iterator chains outside the extraction rules, covered only by the BOUNDED Kani unit K-LAYOUT (4 small concrete configurations, symbolic data)',
                      'source ESIs of source_packets (iterator chain; bounded harness did not finish)']),
     'C09': dict(
-        level='proof', units=[('V', 'V-SLAB', 'v_slab'), ('K', 'K-SLABMEM', None)],
+        level='proof', units=[('V', 'V-SLAB', 'v_slab'), ('V', 'V-ENCINTO', 'v_encinto'), ('K', 'K-SLABMEM', None)],
         explanation='for all symbol counts and sizes: SymbolSlab::add_assign / mulassign_scalar / fma / set_reorder and perform_op realise apply_op on the logical symbols (whole view: every other symbol unchanged), '
                     'create_d builds the RFC D vector, gen_intermediate_symbols_with_plan == fold of apply_op over the plan; lemma: every op, hence every plan, acts independently on each byte column '
                     '(column(apply_ops(D, ops), j) == apply_ops(column(D, j), ops)), so plans behave identically for every symbol size; every op is additive over symbol-wise xor '
-                    '(lemma_op_additive, using distributivity of the polynomial product proved by bit_vector). Bounded Kani stand-in K-SLABMEM runs the real slab ops (raw-pointer borrow, real kernels) on 3 symbols of 1..16 bytes',
+                    '(lemma_op_additive, using distributivity of the polynomial product proved by bit_vector); enc_into (the encoding symbol generator Enc[]) returns, for every tuple and every symbol size, the symbol-wise xor of the intermediate symbols at the RFC 5.3.5.3 index walk (V-ENCINTO), hence is linear in the intermediate symbols. Bounded Kani stand-in K-SLABMEM runs the real slab ops (raw-pointer borrow, real kernels) on 3 symbols of 1..16 bytes',
         assumptions=['kernel contracts (element-wise) assumed in V-SLAB: checked bounded by K-KERN (C11)', 'rule U2 / S3 models of from_raw_parts and &mut vec[a..b]', 'the solver\'s op list is data independent (syntactic: phases never read D)',
-                     'Enc (enc_into) as xor of intermediate symbols at the RFC index sequence: index sequence decided by K-ENCIDX on the twin enc_indices; enc_into itself external'],
-        not_decided=['scalar homogeneity (needs associativity/commutativity of the field product) is not machine-checked', 'enc_into body (same loop shape as enc_indices) not under contract']),
+                     'V-ENCINTO: contracts of SymbolSlab::get (proved in V-SLAB), octets::add_assign (K-KERN) and the three table look-ups (V-TAB) assumed; termination of the `while b1 >= P` walk not proved in Verus (partial correctness)'],
+        not_decided=['scalar homogeneity (needs associativity/commutativity of the field product) is not machine-checked']),
     'C06': dict(
         level='proof', units=[('V', 'V-SLAB', 'v_slab'), ('V', 'V-TAB', 'v_tab'), ('K', 'K-TAB', None)],
         explanation='decided part only: plan replay applies exactly the op list with the slab interpreter (gen_intermediate_symbols_with_plan == apply_ops over the D vector), the final Reorder is the only '
@@ -194,11 +194,11 @@ PROPS = {
         assumptions=['Intel SDM models of _mm{,256,512}_shuffle_epi8, _bextr2_u32, _mm512_maskz_mov_epi8; nondeterministic CPUID/XGETBV', 'NEON kernels are cfg\'d out on this host: not covered'],
         not_decided=['lengths >= 3W, scalars x lengths product beyond the stated set', 'NEON']),
     'C04': dict(
-        level='proof', units=[('V', 'V-RNG', 'v_rng'), ('V', 'V-TAB', 'v_tab'), ('V', 'V-ENC', 'v_enc'), ('V', 'V-SLAB', 'v_slab'), ('K', 'K-TAB', None), ('K', 'K-RNG', None), ('K', 'K-ENCIDX', None), ('K', 'K-GF', None)],
-        explanation='decided part: Rand, Deg, Tuple equal the RFC definitions for every reachable argument (V-RNG/K-RNG); the Enc index sequence equals the RFC for every row and in-range tuple (K-ENCIDX); '
+        level='proof', units=[('V', 'V-RNG', 'v_rng'), ('V', 'V-TAB', 'v_tab'), ('V', 'V-ENC', 'v_enc'), ('V', 'V-ENCINTO', 'v_encinto'), ('V', 'V-SLAB', 'v_slab'), ('K', 'K-TAB', None), ('K', 'K-RNG', None), ('K', 'K-ENCIDX', None), ('K', 'K-GF', None)],
+        explanation='decided part: Rand, Deg, Tuple equal the RFC definitions for every reachable argument (V-RNG/K-RNG); the Enc index sequence of the decoder-side twin enc_indices equals the RFC for every row and in-range tuple (K-ENCIDX); the encoder-side enc_into xors exactly the intermediate symbols at the RFC 5.3.5.3 walk (b + j*a mod W for j < d, then the first d1 positions of the b1 + k*a1 mod P1 walk with value < P), for ALL K\', tuples and symbol sizes (V-ENCINTO, Verus, unbounded); '
                     'repair ESI X maps to ISI X + K\' - K and payload Enc over the encoder\'s intermediate symbols, ids as prescribed (V-ENC); D = [0^(S+H), source, 0-padding] (V-SLAB create_d); '
                     'tables equal the pinned transcription and satisfy the RFC structural facts (K-TAB/V-TAB); GF(256) is the RFC field (K-GF). The oracle is an RFC transcription, so a consistent deviation shared by encoder and decoder is caught.',
-        assumptions=['pinned tables == RFC 6330', 'enc_into (encoder twin of enc_indices) external', SOLVER_ASSUMED],
+        assumptions=['pinned tables == RFC 6330', 'V-ENCINTO: termination of the P1 walk not proved (partial correctness); get/add_assign/table look-up contracts assumed there and proved in V-SLAB/K-KERN/V-TAB', SOLVER_ASSUMED],
         not_decided=['that the intermediate symbols are THE solution of the pre-code system (solver) and that generate_constraint_matrix/generate_hdpc_rows build the RFC matrix',
                      'source packet i carries source symbol i (source_packets uses iterator chains; planned bounded unit)', 'quick tier: enc_indices for d <= 8 only (complete d <= 30 in thorough)']),
     'C16': dict(
